@@ -2,7 +2,8 @@
 Descriptors are extracted from the two generated Go packages (harness/cmd/apidesc3, apidesc3alpha) and parsed from the two
 .proto sources (lib/protoparse.py, proto3 subset, refuses anything else); TLC explores the wire model of spec/ApiCompat.tla
 completely (every method x request/response x every message-typed field path up to MaxDepth) plus a static pass over every
-definition, the generated-vs-source comparison and the system constants."""
+definition, the generated-vs-source comparison, the system constants, and the gRPC bindings (every generated client stub and
+server handler is driven once and the path it really uses is compared with the descriptor)."""
 import json, os, subprocess, sys, time
 import vlib
 import protoparse
@@ -15,7 +16,8 @@ def run(ctx):
     b3 = vlib.build_harness("apidesc3", tags=None)
     bA = vlib.build_harness("apidesc3alpha", tags=None)
     data = {"go3": json.loads(vlib.run_harness(b3, [])), "goA": json.loads(vlib.run_harness(bA, [])),
-            "consts": json.loads(vlib.run_harness(b3, ["consts"]))}
+            "consts": json.loads(vlib.run_harness(b3, ["consts"])),
+            "grpc3": json.loads(vlib.run_harness(b3, ["grpc"])), "grpcA": json.loads(vlib.run_harness(bA, ["grpc"]))}
     try:
         data["src3"] = protoparse.parse(open(os.path.join(vlib.REPO, "api/v3/api.proto")).read())
         data["srcA"] = protoparse.parse(open(os.path.join(vlib.REPO, "api/v3alpha/api.proto")).read())
